@@ -674,7 +674,20 @@ class CacheSim(object):
         info = {"ava": copy.deepcopy(ev["ava"]), "marker": ev["marker"]}
         if ev.get("with_name_id"):
             info["name_id"] = mk_nid(t)
-        outs = self.both(lambda c, p: c.set(mk_nid(t), src, copy.deepcopy(info), expv))
+        if ev.get("reuse"):
+            # the caller keeps one dict as its work area and refills it for every store (one per cache object)
+            if not hasattr(self, "work"):
+                self.work = {}
+
+            def store(c, p):
+                w = self.work.setdefault(id(c), {})
+                w.clear()
+                w.update(copy.deepcopy(info))
+                return c.set(mk_nid(t), src, w, expv)
+            outs = self.both(store)
+            self.count("probe.set.reused-info-dict")
+        else:
+            outs = self.both(lambda c, p: c.set(mk_nid(t), src, copy.deepcopy(info), expv))
         out = self.same_backends(i, outs, "set")
         if out[0] == "ok":
             self.model.setdefault(t, {})[src] = (expv, {"ava": copy.deepcopy(ev["ava"]), "marker": ev["marker"]})
@@ -1012,6 +1025,7 @@ def gen_c19(seed, tier):
     evs = []
     mk = 0
     last_set = {}
+    reuse_info = r.chance(0.25)       # the caller refills one dict object for every store instead of building a new one
     for _ in range(n):
         k = r.weighted(weights)
         s = 0 if r.chance(focus_subj) else r.randrange(3)
@@ -1030,6 +1044,8 @@ def gen_c19(seed, tier):
                 # the same statement again with another expiry (a renewed / shortened session)
                 e["ava"], e["marker"], e["with_name_id"] = prev["ava"], prev["marker"], prev["with_name_id"]
             last_set[(s, src)] = e
+            if reuse_info and k == "set":
+                e["reuse"] = True
             if k == "add_person" and e["form"] == "struct":
                 e["form"] = "int"
         elif k in ("get", "active", "reset", "entityid"):
